@@ -48,17 +48,18 @@ def memoer_class():
             self.mids = []
 
         def verify(self, vid, sig, ser):
-            # the key text the signature has to be checked against: the vid itself when non-transferable
-            # ('B'), else the qvk currently in .keep ("" when there is none)
+            # the raw key the signature has to be checked against: decoded from the vid itself when it is
+            # non-transferable ('B'), else from the qvk currently in .keep ("" when there is none), and the raw
+            # signature; both decoded leniently here (the model decides which texts are acceptable at all)
             v = _b(vid).decode("latin1")
             kt = v if v[:1] == "B" else (self.keep[v].qvk if v in self.keep else "")
-            key = [kt.encode("latin1").hex(), _b(sig).hex(), _b(ser).hex()]
+            key = [_lenient(kt, 1).hex(), _lenient(_b(sig).decode("latin1"), 2).hex(), _b(ser).hex()]
             try:
                 r = super().verify(vid, sig, ser)
             except Exception as ex:
-                self.vlog.append(key + [exn_kind(ex), _b(vid).hex()])
+                self.vlog.append(key + [exn_kind(ex), _b(vid).hex(), _b(sig).hex()])
                 raise
-            self.vlog.append(key + ["ok" if r is True else "OtherErr", _b(vid).hex()])
+            self.vlog.append(key + ["ok" if r is True else "OtherErr", _b(vid).hex(), _b(sig).hex()])
             return r
 
         def makeMID(self, code="0A"):
@@ -69,6 +70,15 @@ def memoer_class():
 
 def _b(x):
     return x.encode() if isinstance(x, str) else bytes(x)
+
+
+def _lenient(text, hz):
+    """raw bytes of a qb64 text with a code of hz chars, ignoring code and pad bits; b"" if not decodable"""
+    from base64 import urlsafe_b64decode
+    try:
+        return urlsafe_b64decode("A" * hz + text[hz:])[hz:]
+    except Exception:
+        return b""
 
 
 def rend(memo, code="bAAA", curt=False, size=None, vid=None, mid=None, keepmode="full"):
@@ -138,7 +148,7 @@ def observe_rx(m):
     memo = lambda t: [t[0].encode().hex(), src_index(t[1]), None if t[2] is None else t[2].encode().hex()]
     seen, vlog = set(), []
     for e in m.vlog:
-        k = tuple(e[:3]) + (e[4],)
+        k = tuple(e[:3]) + (e[4], e[5])
         if k not in seen:
             seen.add(k); vlog.append(e)
     return {"rxgs": rxgs, "rxms": [memo(t) for t in m.rxms], "inbox": [memo(t) for t in m.inbox],
@@ -169,8 +179,14 @@ def coq_memo(t):
 
 
 def coq_rx_case(authic, ops, obs, excs):
+    # libsodium's verdict per (raw key, raw signature, signed bytes): several texts may denote the same raw values
+    # (the real verify rejects the non-canonical ones before libsodium is asked), so "ok" wins over a rejection
+    verdict = {}
+    for v, s, m, r, _vid, _sig in obs["verify"]:
+        if verdict.get((v, s, m)) != "ok":
+            verdict[(v, s, m)] = r
     vt = [f"({hexb(v)}, {hexb(s)}, {hexb(m)}, {'Ok tt' if r == 'ok' else '(@Exc unit ' + r + ')'})"
-          for v, s, m, r, _vid in obs["verify"]]
+          for (v, s, m), r in verdict.items()]
     ents = []
     for mid, grams, cnt, vid, src in obs["rxgs"]:
         gl = coq_list([f"({coq_N(gn)}, {hexb(b)})" for gn, b in grams], "N * bytes")
@@ -214,16 +230,34 @@ def head_len(ser):
     return None
 
 
+def _strict(text, hz, n):
+    """raw bytes of a canonical qb64 text (n chars, hz code chars): re-encoding must give the text back"""
+    from base64 import urlsafe_b64decode, urlsafe_b64encode
+    if len(text) != n:
+        raise ValueError("length")
+    raw = urlsafe_b64decode("A" * hz + text[hz:])[hz:]
+    if urlsafe_b64encode(b"\0" * hz + raw).decode()[hz:] != text[hz:]:
+        raise ValueError("non canonical")
+    return raw
+
+
 def sodium_ok(vid, sig, ser, keep):
-    """Independent Ed25519 check with libsodium (not through Memoer.verify)."""
+    """Independent Ed25519 check with libsodium (not through Memoer.verify); key and signature text must be
+    canonical (right code, length, zero pad bits)."""
     import pysodium
-    from base64 import urlsafe_b64decode
     try:
         if vid[:1] == "B":
-            verkey = urlsafe_b64decode("A" + vid[1:])[1:]
+            verkey = _strict(vid, 1, 44)
+        elif vid[:1] in "DE":
+            _strict(vid, 1, 44)
+            if keep[vid].qvk[:1] != "B":
+                return False
+            verkey = _strict(keep[vid].qvk, 1, 44)
         else:
-            verkey = urlsafe_b64decode("A" + keep[vid].qvk[1:])[1:]
-        rawsig = urlsafe_b64decode("AA" + sig[2:])[2:]
+            return False
+        if sig[:2] != "0B":
+            return False
+        rawsig = _strict(sig, 2, 88)
         pysodium.crypto_sign_verify_detached(rawsig, ser, verkey)
         return True
     except Exception:
